@@ -21,3 +21,13 @@ func vProcState(code int) *os.ProcessState {
 	c.Run()
 	return c.ProcessState
 }
+
+// vAbsBytes: a byte slice of n copies of def. Inside the engine it is intercepted: the slice has a
+// SYMBOLIC length (an abstract slice), so code that compares len(data) with a limit forks on it.
+func vAbsBytes(n int, def byte) []byte {
+	s := make([]byte, n)
+	for i := range s {
+		s[i] = def
+	}
+	return s
+}
